@@ -192,8 +192,12 @@ def trace_or_violation(ck, oid, real, args, argnames, label, stub=True):
 
 
 # ------------------------------------------------------------------------------------------------ batch_indices
-def sec_indices(ck, N, B, first=False):
-    buf = mkrb((N,))
+def sec_indices(ck, N, B, first=False, tail=()):
+    # tail: further (unflattened) batch axes behind the leading one -- the buffer a partial flattening leaves (batches(batch_axes=0): whole trajectories
+    # per minibatch row): the indices still address the LEADING axis only
+    buf = mkrb((N,) + tuple(tail))
+    if tail:
+        return _sec_indices_tail(ck, buf, N, B, tail)
 
     tr = trace_or_violation(ck, f"idx.count@N={N},B={B}", lambda b, k: b.batch_indices(B, key=k), (buf, jr.key(0)), ["buf", "key"], "AbstractBuffer.batch_indices")
     if tr is None:
@@ -230,6 +234,29 @@ def sec_indices(ck, N, B, first=False):
     if first and flat:
         ck.control(f"control.idx.needs_permutation_contract@N={N},B={B}", [], g)
         ck.control(f"control.idx.last_sample_never_used@N={N},B={B}", A, conj([x < N - 1 for x in flat]))
+
+
+def _sec_indices_tail(ck, buf, N, B, tail):
+    cfg = f"N={N},B={B},trailing_batch_axes={tuple(tail)}".replace(" ", "")
+    tr = trace_or_violation(ck, f"idx.count@{cfg}", lambda b, k: b.batch_indices(B, key=k), (buf, jr.key(0)), ["buf", "key"], f"AbstractBuffer.batch_indices on a {(N,) + tuple(tail)} buffer")
+    if tr is None:
+        return
+    it = Interp()
+    S = tr.symbols(it)
+    idx = tr.run(it, S)[tr.out_names[0]]
+    nb = N // B
+    ck.fact(f"idx.count@{cfg}", idx.ndim == 2 and idx.shape[1] == B and idx.size == nb * B, f"index matrix shape {tuple(idx.shape)}; floor(N/B)={nb} minibatches of B={B} rows of the leading axis")
+    flat = list(idx.reshape(-1))
+    g = conj([z3.And(x >= 0, x < N) if isinstance(x, z3.ExprRef) else (0 <= x < N) for x in flat] + [flat[a] != flat[b] for a in range(len(flat)) for b in range(a + 1, len(flat))])
+
+    def rp(res):
+        keys = concrete.KeyBinding(res)
+        w = concrete.ModelWorld(res, it.uf_apps, keys)
+        vals = [concrete.model_leaf(res, S[n], av, keys) for n, av in zip(tr.in_names, tr.in_avals)]
+        got = np.asarray(concrete.run_real(tr, vals, w)[0]).reshape(-1).tolist()
+        bad = (len(set(got)) < len(got)) or any(not (0 <= x < N) for x in got) or len(got) != nb * B
+        return bad, {"function": tr.label, "leading_axis": N, "B": B, "index_matrix": got, "note": "indices beyond the leading axis make gather/take fill rows with NaN / clamp to the last row"}
+    ck.prove(f"idx.partition@{cfg}", stubs.contracts(it), g, replay=rp)
 
 
 # ------------------------------------------------------------------------------------------------ batches (flatten + indices + take)
@@ -770,6 +797,9 @@ def main():
         with ck.section(f"gather@N={N},B={B}"):
             ck.second = second and N <= 8
             sec_gather(ck, N, B, first=(N, B) == (3, 2))
+    for (N, B, tail) in (((3, 2, (2,)),) if not ck.thorough else ((3, 2, (2,)), (4, 2, (3,)), (2, 1, (2, 2)))):
+        with ck.section(f"indices@N={N},B={B},tail={tail}"):
+            sec_indices(ck, N, B, tail=tail)
     ck.second = second
     for i, (E, S_) in enumerate(flat_cfgs):
         with ck.section(f"flatten@E={E},S={S_}"):
